@@ -58,3 +58,5 @@ def register_p2(reg, prop):
             "not defined('_kept') or iff(ncalls('summary') == 1, _kept > 0)",
         ],
         frame=[]))
+    from pyvc.contracts import alias_loops_by_order
+    alias_loops_by_order(reg.fns["hippolyzer.lib.proxy.message_logger:WrappingMessageLogger.add_log_entry"])
